@@ -137,6 +137,8 @@ class SimSocket(object):
 
     # -- configuration
     def settimeout(self, t):
+        if t is not None and t < 0:
+            raise ValueError('Timeout value out of range')     # as the real socket does
         self._timeout = t
 
     def gettimeout(self):
@@ -171,6 +173,8 @@ class SimSocket(object):
         return self.closed or self.ch is None or self._rxp().readable()
 
     def recv(self, n, flags=0):
+        if n < 0:
+            raise ValueError('negative buffersize in recv')     # as the real socket does
         self.k.yield_point('recv')
         if self.closed:
             raise OSError(9, 'Bad file descriptor')
@@ -285,6 +289,8 @@ class SimDatagramSocket(object):
         net.endpoints[addr] = self
 
     def settimeout(self, t):
+        if t is not None and t < 0:
+            raise ValueError('Timeout value out of range')     # as the real socket does
         self._timeout = t
 
     def setblocking(self, flag):
@@ -312,6 +318,8 @@ class SimDatagramSocket(object):
         return len(data)
 
     def recvfrom(self, size):
+        if size < 0:
+            raise ValueError('negative buffersize in recvfrom')
         self.k.yield_point('recvfrom')
         if not self.rxq:
             if self._timeout == 0.0:
@@ -363,6 +371,9 @@ class SimSerial(object):
         t0 = self.k.now
         if size is None:
             size = 1
+        if size <= 0:
+            self.reads.append((size, 0, t0, self.k.now))
+            return b''                  # pyserial: nothing to read for a non-positive size
         if size > 0 and len(p.rx) < size and self.timeout != 0:
             self.k.wait(lambda: len(p.rx) >= size or not self.is_open or p.reset, self.timeout, 'read:' + self.name)
             if not self.is_open:
@@ -437,7 +448,9 @@ class SimRLock(object):
             k.count('lock_contended')
             if not blocking:
                 return False
-            k.wait(lambda: self.owner is None, None, 'lock')
+            got = k.wait(lambda: self.owner is None, (timeout if timeout is not None and timeout >= 0 else None), 'lock')
+            if not got and self.owner is not None:
+                return False            # acquire(timeout=...) gives up like the real lock
         self.owner = me
         self.depth += 1
         k.log('lock-acquire')
@@ -445,6 +458,9 @@ class SimRLock(object):
 
     def release(self):
         k = self._kg()
+        if self.depth <= 0 or (k is not None and k.current is not None and self.owner is not None
+                               and self.owner is not k.current):
+            raise RuntimeError('cannot release un-acquired lock')      # as threading.RLock does
         self.depth -= 1
         if self.depth == 0:
             self.owner = None
